@@ -9,7 +9,7 @@ for n in sorted(os.listdir(V)):
         continue
     meta = json.load(open(d + '/meta.json')) if os.path.exists(d + '/meta.json') else {}
     res = json.load(open(d + '/result.json')) if os.path.exists(d + '/result.json') else None
-    what = (meta.get('summary') or '').replace('\n', ' ').replace('|', '/')
+    what = (meta.get('summary') or meta.get('needs') or '').replace('\n', ' ').replace('|', '/')
     what = what[:150] + ('...' if len(what) > 150 else '')
     if res:
         caught = ', '.join(p for p, c in res['checks'].items() if c['exit'] == 1) or '-'
